@@ -13,6 +13,7 @@ import Aqv.Model.EvmOps
 import Aqv.Model.EvmSpec
 import Aqv.Model.EvmSelect
 import Aqv.Model.EvmRun
+import Aqv.Base.Keccak
 open Aqv Aqv.Proto Aqv.Big Aqv.Evm Aqv.Gen.VmTable
 
 def hexNatAux : List Char → Nat → Option Nat
@@ -103,6 +104,9 @@ def specOp (name : String) (a : List EvmSpec.W) : Option EvmSpec.W :=
   | "SHR", [x, y] => some (EvmSpec.shr x y)
   | "SAR", [x, y] => some (EvmSpec.sar x y)
   | _, _ => none
+
+/-- opcode → generated table entry (driver-side helper) -/
+def implInfoAt (e : Epoch) (opc : Nat) : Option OpInfo := (table e).find? (fun i => i.op == opc)
 
 def optGas : Option UInt64 → Option Nat
   | some g => some g.toNat
@@ -337,33 +341,47 @@ def renderOutcome : Outcome → String
   | .revert ret g st => "revert " ++ hexOrDash ret ++ " " ++ toString g ++ " " ++ stackDigest st
   | .fail f => "fail " ++ f.name
   | .skip op => "skip " ++ toString op
+  | .deviation => "deviation"
   | .fuel => "fuel"
 
 /-- the Spec does not distinguish the kinds of exceptional halt -/
 def normFail (s : String) : String := if s.startsWith "fail" then "fail" else s
 
-def harnessEnv (code calldata : Bytes) : Env :=
-  { code := code.toArray, calldata := calldata.toArray, address := 0xc0de0, caller := 0xc0ffe, origin := 0xc0ffe, callvalue := 0,
-    gasprice := 1, coinbase := 0, timestamp := 1000, number := 0, difficulty := 1, gaslimit := 10000000 }
+def harnessEnv (code calldata retdata : Bytes) : Env :=
+  { code := code.toArray, calldata := calldata, returndata := retdata, address := 0xc0de0, caller := 0xc0ffe, origin := 0xc0ffe,
+    callvalue := 0, gasprice := 1, coinbase := 0, timestamp := 1000, number := 0, difficulty := 1, gaslimit := 10000000 }
+
+/-- SAR part of `devSet` only (to name the deviation a run went through) -/
+def devSar (_ : Entry) (opc : Nat) (m : Machine) : Bool :=
+  opc == 0x1d && decide (back m.stack 0 ≥ 256) && decide (back m.stack 1 = 0)
+
+/-- judge a whole-program outcome: Impl and Spec interpreters from the given start machine -/
+def judgeRun (env : Env) (e : Epoch) (gtn : GasTableName) (m0 : Machine) (go : String) : String :=
+  let fuel := m0.gas + 2
+  let H := Aqv.Keccak.keccak256
+  match runImpl env H e (gasTableOf gtn) noGuard fuel m0 with
+  | .skip op => "skip " ++ toString op ++ "\tagree"
+  | oi =>
+    let impl := renderOutcome oi
+    let spec := renderOutcome (runSpec env H (epochLevel e) (specExpByteOf gtn) noGuard fuel m0)
+    if spec.startsWith "skip" then impl ++ "\tagree"
+    else
+      let gon := normFail go
+      if gon == normFail spec then judge impl go true ""
+      else if impl == go then
+        -- Go = Impl ≠ Spec: by run_refines_spec_partial the run went through one of the two recorded operand sets
+        (match runSpec env H (epochLevel e) (specExpByteOf gtn) devSet fuel m0 with
+         | .deviation =>
+           (match runSpec env H (epochLevel e) (specExpByteOf gtn) devSar fuel m0 with
+            | .deviation => impl ++ "\tspec-reject:sar-shift-ge-256-of-zero"
+            | _ => impl ++ "\tspec-reject:memgas-square-wraps-uint64")
+         | _ => impl ++ "\tspec-reject:unexpected-modelled-deviation")
+      else impl ++ "\tspec-reject:program-outcome-differs-from-spec"
 
 /-- `prog <epoch> <gt> <gas> <code> <calldata>`: whole programs over the modelled opcode subset -/
 def caseProg (eS gtS gasS codeS dataS : String) (go : String) : String :=
   match parseEpoch eS, parseGt gtS, gasS.toNat?, bytesOfHex codeS, bytesOfHex dataS with
-  | some e, some gtn, some gas, some code, some data =>
-    let env := harnessEnv code data
-    match runImpl env e (gasTableOf gtn) gas with
-    | .skip op => "skip " ++ toString op ++ "\tagree"
-    | oi =>
-      let impl := renderOutcome oi
-      let spec := renderOutcome (runSpec env (epochLevel e) (specExpByteOf gtn) false gas)
-      if spec.startsWith "skip" then impl ++ "\tagree"
-      else
-        let gon := normFail go
-        if gon == normFail spec then judge impl go true ""
-        else
-          let specK := renderOutcome (runSpec env (epochLevel e) (specExpByteOf gtn) true gas)
-          if impl == go ∧ gon == normFail specK then impl ++ "\tspec-reject:sar-shift-ge-256-of-zero"
-          else impl ++ "\tspec-reject:program-outcome-differs-from-spec"
+  | some e, some gtn, some gas, some code, some data => judgeRun (harnessEnv code data []) e gtn (startMachine gas) go
   | _, _, _, _, _ => "bad-op\tagree"
 
 def handle (l : String) : String :=
